@@ -173,6 +173,28 @@ func (b *wb) addBlob() int {
 	return b.add(Item{K: "blob", Seed: seed, Size: b.r.Range(1, 48)})
 }
 
+// addMedia adds blobs the index treats specially by their bytes: a blob larger
+// than a schema blob may be that starts like a PNG (the sniffer keeps 1 MiB
+// of it), or a JPEG with EXIF data - as it is or hidden behind junk bytes -
+// under two file names, one with an image extension and one without.
+func (b *wb) addMedia(budget int) {
+	r := b.r
+	if r.Bool(0.4) || budget < 3 {
+		b.nblob++
+		b.add(Item{K: "blob", Seed: r.Uint64() % 1000, Size: (1 << 20) + 2 + r.Intn(600000), Media: "png"})
+		return
+	}
+	b.nblob++
+	chunk := b.add(Item{K: "blob", Media: []string{"jpeg", "junkjpeg", "junkjpeg"}[r.Intn(3)]})
+	names := []string{"shot.jpg", "shot.dat"}
+	if r.Bool(0.5) {
+		names[0], names[1] = names[1], names[0]
+	}
+	for _, n := range names {
+		b.add(Item{K: "file", Parts: []int{chunk}, Name: n})
+	}
+}
+
 // addFile adds a file with a bytes tree of the given depth (1 = chunks
 // directly under the file) using at most budget items; returns items used.
 func (b *wb) addFile(budget int) int {
@@ -276,6 +298,8 @@ func genWorld(r *simcore.Rand, maxItems int, allowEq bool) *WorldSpec {
 	if r.Bool(0.25) {
 		wDel = 8
 	}
+	// (drawn from a stream of its own: the other draws are as before)
+	media := simcore.NewRand(simcore.Mix(r.Uint64(), "media")).Intn(40) == 0
 	for guard := 0; b.n() < target && guard < 100; guard++ {
 		budget := target - b.n()
 		total := wPN + wClaim + wDel + wFile + wDir + wBlob
@@ -300,6 +324,9 @@ func genWorld(r *simcore.Rand, maxItems int, allowEq bool) *WorldSpec {
 		default:
 			b.addBlob()
 		}
+	}
+	if media {
+		b.addMedia(3)
 	}
 	return &WorldSpec{Items: b.items}
 }
